@@ -23,7 +23,7 @@ package hack
 //@   assigns nothing
 
 //@ func (*HijackClientHelloConn).hasCompleteClientHello
-//@   props C04,C10
+//@   props C04,C10,C01
 //@   requires c != nil && c.expectedLen >= 0
 //@   assigns c.buf.view
 //@   ensures [C04:complete-iff] result <==> (c.expectedLen != 0 && len(old(c.buf.view)) != 0 && len(old(c.buf.view)) >= c.expectedLen)
@@ -31,7 +31,7 @@ package hack
 //@   ensures [C04:untouched-when-incomplete] !result ==> c.buf.view == old(c.buf.view)
 
 //@ func (*HijackClientHelloConn).tryParseClientHello
-//@   props C04,C10
+//@   props C04,C10,C01
 //@   requires c != nil && winv(c)
 //@   assigns c.buf.view, c.expectedLen
 //@   ensures [C04:inv] inv(c)
@@ -42,7 +42,7 @@ package hack
 //@   inline
 
 //@ func (*HijackClientHelloConn).GetClientHello :: c -> rec, err
-//@   props C04,C10
+//@   props C04,C10,C01
 //@   requires c != nil && inv(c)
 //@   assigns c.buf.view, c.expectedLen
 //@   ensures [C04:inv] inv(c)
@@ -51,7 +51,7 @@ package hack
 //@   ensures [C04:nothing-on-error] err != nil ==> len(rec) == 0
 
 //@ func (*HijackClientHelloConn).Read :: c, b -> n, err
-//@   props C04,C10
+//@   props C04,C10,C01
 //@   requires c != nil && inv(c)
 //@   assigns post(b), delivered(c.tlsConn), c.buf.view, c.expectedLen
 //@   ensures [C04:inv] inv(c)
@@ -69,12 +69,16 @@ package hack
 //@   assigns evlog, lastSent
 //@   ensures evlog == old(evlog) ++ seq[int]{2} && lastSent == conn
 
+//@ -- ghost: how often the connection's done callback has been invoked (it releases serveConn's wait)
+//@ ghostfield TLSClientHelloConn.doneCalls int
 //@ func field TLSClientHelloConn.Done
 //@   trusted
-//@   pure
+//@   assigns owner.doneCalls
+//@   ensures owner.doneCalls == old(owner.doneCalls) + 1
 
 //@ func (*TLSClientHelloConn).Close :: c -> err
-//@   props C11
 //@   requires c != nil && c.Conn != nil
-//@   assigns c.Conn.tlsClosed
+//@   props C11,C16
+//@   assigns c.Conn.tlsClosed, c.doneCalls
 //@   ensures [C11:closes-inner] c.Conn.tlsClosed == old(c.Conn.tlsClosed) + 1
+//@   ensures [C11:releases-waiter-on-every-path] c.doneCalls == old(c.doneCalls) + 1
